@@ -24,10 +24,13 @@ NEEDS = {
     "C01_ClosedDiffusionMid": ["Mdiff"], "C01_ClosedCentralMid": ["Mconv"], "C01_ClosedUpwindMid": ["Mup"],
     "C01_ClosedDivergenceMid": ["divu"], "C01_PeriodicDiffusion": ["Mdiff", "volume"],
     "C01_PeriodicCentral": ["Mconv", "volume"], "C01_PeriodicUpwind": ["Mup", "volume"],
+    "C05_TvdZero": ["tvd0"], "C05_TvdUnit": ["Mupalt", "Mconv", "tvd1"],
+    "C13_TvdFinite": ["tvdnamed"], "C13_TvdInterior": ["tvdnamed"], "C13_TvdFormula": ["tvdnamed"],
+    "C06_TvdConst": ["tvdconst"], "C01_ClosedTvd": ["tvdnamed", "volume"], "C01_ClosedTvdMid": ["tvdnamed"],
     "C04_DiffInterior": ["Mdiff"], "C04_ConvInterior": ["Mconv"], "C04_UpInterior": ["Mup"],
 }
 # observed outputs that have a reference counterpart (conformance tripwire)
-CONFORMABLE = {"Mdiff", "Mconv", "Mup", "Mupalt", "ghost", "Mbc", "Rbc", "grad", "divu", "linmean",
+CONFORMABLE = {"tvd1", "Mdiff", "Mconv", "Mup", "Mupalt", "ghost", "Mbc", "Rbc", "grad", "divu", "linmean",
                "arithmean", "harmmean", "upmean", "Msrc", "Rsrc"}
 
 
@@ -118,7 +121,7 @@ def run_property(prop, tier, seed, *, clauses_for, n_quick, n_thorough, gen_kw=N
             off = offsets_str(v.get("detail", {}).get(cl))
             if off:
                 sig["offsets"] = off
-            if "UpwindAlt" in cl:
+            if "UpwindAlt" in cl or cl == "C05_TvdUnit":
                 sig["uup_zero_where_u_nonzero"] = uup_zero_flag(e["cfg"])
                 if sig["uup_zero_where_u_nonzero"]:
                     sig.pop("offsets", None)
